@@ -257,6 +257,8 @@ preserving('w8-softplus-allowed', ['C01', 'C02'], [(M + 'manifold/_stiefel.py', 
 preserving('dom1-equivalent-bounds', ['C17'], [(M + 'dicke.py', "    assert (dim>1) and (num_qudit>=1)", "    assert (dim>=2) and (0<num_qudit)")])
 preserving('s8-isnot-none-else-arm', ['C10'], [(M + 'random/_public.py', "    if rng_or_seed is None:\n        ret = random.Random()\n    elif isinstance(rng_or_seed, random.Random):\n        ret = rng_or_seed\n    else:\n        ret = random.Random(int(rng_or_seed))", "    if rng_or_seed is not None:\n        ret = rng_or_seed if isinstance(rng_or_seed, random.Random) else random.Random(int(rng_or_seed))\n    else:\n        ret = random.Random()")])
 preserving('n2-frobenius-of-square-sample', ['C10'], [(M + 'random/_internal.py', "    tmp0 = np_rng.normal(size=(N0,dim))\n    tmp0 = tmp0 / np.linalg.norm(tmp0, axis=-1, keepdims=True)", "    scale = np.linalg.norm(np_rng.normal(size=(dim,dim))*0 + np.eye(dim)) / np.sqrt(dim)\n    tmp0 = np_rng.normal(size=(N0,dim)) * scale\n    tmp0 = tmp0 / np.linalg.norm(tmp0, axis=-1, keepdims=True)")])
+breaking('EX1-admitted-option-without-arm', {'C20': 'EX1'}, edit=[(M + 'matrix_space/_numerical_range.py', "    assert method in {'rotation', 'eigen'}\n    dimA = mat.shape[0]", "    assert method in {'rotation', 'eigen', 'sdp'}\n    dimA = mat.shape[0]")])
+breaking('EX1-bell-stale-arm', {'C18': 'EX1'}, edit=[(M + 'state/_internal.py', "    elif i==2:\n        ret = np.array([0,1,1,0], dtype=np.float64) / np.sqrt(2)", "    elif i==4:\n        ret = np.array([0,1,1,0], dtype=np.float64) / np.sqrt(2)")])
 # ---- textual breaking edits, one per rule family
 breaking('S3-ambient-draw', {'C10': 'S3'}, edit=[(M + 'random/_internal.py', "tmp0 = np_rng.normal(size=(N0,dim))\n    tmp0 = tmp0 / np.linalg.norm", "tmp0 = np.random.normal(size=(N0,dim))\n    tmp0 = tmp0 / np.linalg.norm")])
 breaking('S4-unseeded-receiver', {'C10': 'S4'}, edit=[(M + 'random/_internal.py', "    np_rng = get_numpy_rng(seed)\n    assert dim>=2\n    tmp0 = np.triu(", "    np_rng = get_numpy_rng(seed)\n    assert dim>=2\n    np_rng = np.random.default_rng(dim)\n    tmp0 = np.triu(")])
